@@ -1,5 +1,5 @@
 # replay of a bounded stand-in violation: re-run native/c01_backends.py
 import sys
-print('Catstate(0.7, 1.1, p=1.75); Rgate; BSgate on bosonic/complex: quadrature moments / photon numbers [0.2213, 0.1268, -0.0382, 0.1842, 0.1592, 0.043, 0.1664, 0.1181] differ from the fock simulator [-0.2213, -0.1268, 0.0382, -0.1842, -0.1592, -0.043, 0.1664, 0.1181]')
+print('Catstate(0.8, 0.4, p=1.0); Rgate; BSgate on bosonic/complex: quadrature moments / photon numbers [0.0, -0.0, -0.0, -0.0, 0.0, 0.0, 0.6628, 0.4702] differ from the fock simulator [0.0, -0.0, -0.0, 0.0, -0.0, -0.0, 0.6628, 0.4702]')
 print('REPLAY-VIOLATION')
 sys.exit(1)
